@@ -156,6 +156,7 @@ def bases(rnd, quick):
         if len(set(b)) == 3:
             out.append(b)
     # a basis whose first element is not a pin permutation (they exist from length 6 on), followed by a small one
+    out.append(DB_LONG[0])
     out.append([(1, 2, 5, 0, 3, 4), (0, 2, 1)])
     out.append([(0, 2, 1), (1, 2, 5, 0, 3, 4)])
     if not quick:
@@ -188,6 +189,11 @@ def bases(rnd, quick):
             a = rnd.choice(s5)
             out.append([a, rnd.choice(util.perms_of(4)), tuple(Perm(a).remove(rnd.randrange(5)))])   # third contained in first
     return out
+
+
+# bases whose elements all have length 6 (the smallest one in the library's order is not a pin permutation), also asked through the
+# database: the stored automaton of a permutation without pin words accepts nothing, the others must still count
+DB_LONG = [[(1, 2, 5, 0, 3, 4), (1, 3, 0, 5, 2, 4)], [(1, 3, 0, 5, 2, 4), (1, 2, 5, 0, 3, 4)]]
 
 
 def clear_load_cache():
@@ -239,7 +245,7 @@ def run(ctx):
             if st == "raise":
                 ctx.violation(dict(case, form="make_dfa_for_basis"), "NoException", "an automaton", fresh)
                 continue
-            use_db = all(len(p) <= (3 if quick else 4) for p in basis)
+            use_db = all(len(p) <= (3 if quick else 4) for p in basis) or basis in DB_LONG
 
             def other_db(X=B):
                 """The database of another directory, filled beforehand (whole lengths, longest first), the elements stored
